@@ -584,6 +584,19 @@ static void part_e(void) {
 				lib_dec(b.s, b.len, &d);
 				if (!pdec_eq(&d, &b.want)) fail1("valid-string-rejected", "reference string \"%s\" decodes to %s, expected %s", b.s, pdec_str(&d), pdec_str(&b.want));
 				else vf_outcome("e:decode-reference-string:ok");
+				{
+					/* the same data inside a publication record: the record's string is the data's string */
+					KSI_PublicationRecord *rec = NULL;
+					char *rs = NULL;
+					if (KSI_PublicationRecord_new(ctx, &rec) != KSI_OK || KSI_PublicationRecord_setPublishedData(rec, pd) != KSI_OK) vf_harness_error("publication record");
+					pd = NULL;   /* owned by the record */
+					res = KSI_PublicationRecord_toBase32(rec, &rs);
+					g_calls++;
+					if (res != KSI_OK || rs == NULL || check_encoded(rs, b.s, b.nbin, 6, "e", why, sizeof why) != 0 || (str != NULL && strcmp(rs, str) != 0)) fail1("record-encoding-mismatch", "KSI_PublicationRecord_toBase32: 0x%x \"%s\", reference \"%s\", the data's own string \"%s\"", res, rs ? rs : "(null)", b.s, str ? str : "(null)");
+					else vf_outcome("e:record-string:ok");
+					KSI_free(rs);
+					KSI_PublicationRecord_free(rec);
+				}
 				KSI_free(str);
 				KSI_PublicationData_free(pd);
 				vf_count("impl_calls", g_calls);
